@@ -425,6 +425,9 @@ def finish(ctx, verdicts, obs_by_id=None, *, evaluations, rule, nontrivial_keys,
     json.dump(ev, open(os.path.join(outroot, "evidence", ctx.prop + ".json"), "w"), indent=1)
     log("%s %s: %d verdicts, %d rejected (%d known, %d new), %.0fs" % (
         ctx.prop, ctx.tier, len(verdicts), len(bad), len(bad) - len(violations), len(violations), time.time() - ctx.t0))
+    if not violations and getattr(ctx, "deferred_inconclusive", None):
+        # a machinery problem met in a later stage (node-level trace) was held back so that it could not hide a violation
+        raise Inconclusive(ctx.deferred_inconclusive)
     return 1 if violations else 0
 
 
